@@ -266,7 +266,7 @@ impl WmoParser {
         let n_doodad_defs = reader.read_u32_le()?;
         let n_doodad_sets = reader.read_u32_le()?;
         let color_bytes = reader.read_u32_le()?;
-        let flags = WmoFlags::from_bits_truncate(reader.read_u32_le()?);
+        let _wmo_id = reader.read_u32_le()?; // WMOAreaTable reference
 
         // Bounding box of the whole object (min xyz, max xyz)
         let bounding_box = BoundingBox {
@@ -281,6 +281,9 @@ impl WmoParser {
                 z: reader.read_f32_le()?,
             },
         };
+
+        // Flags (u16) and number of LOD levels (u16) close the 64-byte header
+        let flags = WmoFlags::from_bits_truncate(reader.read_u16_le()? as u32);
 
         // Create color from bytes
         let ambient_color = Color {
